@@ -121,6 +121,7 @@ theorem loss_cancels_waiters (s : S) (e : Event)
       | quick => left; exact ⟨rfl, rfl⟩
       | slow => left; exact ⟨rfl, rfl⟩
       | stubborn r => left; exact ⟨rfl, rfl⟩
+      | aborter => exact (doAbort_tkc _).of_eq rfl rfl
       | closer fa =>
         simp only []
         split
